@@ -29,7 +29,8 @@ Proof.
   - destruct Hk as [<-|[]]. exact Hc.
   - destruct Hk as [<-|Hk]; [exact Hc|].
     destruct (p_bases c) as [|p l] eqn:B; [destruct Hk|]. apply (IH p); [|exact Hk].
-    unfold p_bases in B. destruct (tbl_get g_classes c) as [[nm [b r]]|] eqn:G; [|discriminate B]. subst b.
+    unfold p_bases in B. destruct (g_chain_ends_at_any && (c =? g_cls_Any)); [discriminate B|]. unfold tbl_bases in B.
+    destruct (tbl_get g_classes c) as [[nm [b r]]|] eqn:G; [|discriminate B]. subst b.
     pose proof (forest_entry c nm (p :: l) r G) as F. destruct l as [|p' l]; [|contradiction F].
     apply andb_prop in F. destruct F as [F _]. apply andb_prop in F. destruct F as [F _]. apply memN_In. exact F.
 Qed.
@@ -162,12 +163,12 @@ Proof. destruct fs, pk; reflexivity. Qed.
    root that has it, k = the most specific class of c's chain with such a file in ANY root *)
 Lemma p_rendered_partial pol dirs pkg c : In c p_ids ->
   p_flatb pol dirs pkg = true -> p_shadow_freeb pol dirs pkg c = true ->
-  p_rendered_seq false pol dirs pkg [c] = [p_spec_rendered pol dirs pkg c].
+  p_rendered_seq false pol dirs pkg [c] = [p_spec_rendered_code pol dirs pkg c].
 Proof.
   intros Hc Hflat Hsh. unfold p_rendered_seq. rewrite p_cache_transparent.
   assert (PGS : forall n, p_get_source pol dirs pkg n = get_source (fst (mk_loaders pol dirs pkg)) (snd (mk_loaders pol dirs pkg)) n).
   { intros n. unfold p_get_source. destruct (mk_loaders pol dirs pkg); reflexivity. }
-  unfold p_spec_seq, p_spec_rendered, p_flatb, p_shadow_freeb, p_outcome in *.
+  unfold p_spec_seq, p_spec_rendered_code, p_flatb, p_shadow_freeb, p_outcome in *.
   destruct (mk_loaders pol dirs pkg) as [fs pk]. cbn [fst snd] in PGS. cbn [map]. f_equal.
   assert (HF : g_index_top_level_only = true \/ (forallb flatb (roots_of fs) = true /\ flatb (plist_of pk) = true)).
   { apply orb_prop in Hflat. destruct Hflat as [Ht|Hflat]; [left; exact Ht | right].
@@ -224,3 +225,35 @@ Lemma rendered_partial_example :
   p_flatb FIND_ALL dirs (Some [f_struct]) = true /\ p_shadow_freeb FIND_ALL dirs (Some [f_struct]) g_cls_StructureType = true /\
   p_rendered_seq false FIND_ALL dirs (Some [f_struct]) [g_cls_StructureType] = [Rendered (OUserDir 1) f_struct].
 Proof. vm_compute. repeat split; reflexivity. Qed.
+
+(* once the walk stops at Any the code's chain IS the property's chain, and the composed statement is about the property's spec *)
+Lemma chain_n_ext (b b' : cls -> list cls) : (forall c, b c = b' c) -> forall n c, chain_n b n c = chain_n b' n c.
+Proof. intros H. induction n as [|n IH]; intros c; cbn [chain_n]; [reflexivity|]. rewrite H. destruct (b' c); [reflexivity|]. rewrite IH. reflexivity. Qed.
+
+Lemma p_spec_rendered_agree : g_chain_ends_at_any = true ->
+  forall pol dirs pkg c, p_spec_rendered pol dirs pkg c = p_spec_rendered_code pol dirs pkg c.
+Proof.
+  intros H pol dirs pkg c. unfold p_spec_rendered, p_spec_rendered_code. f_equal. apply chain_n_ext.
+  intros k. unfold prop_bases, p_bases. rewrite H. reflexivity.
+Qed.
+
+Lemma p_rendered_property pol dirs pkg c : g_chain_ends_at_any = true -> In c p_ids ->
+  p_flatb pol dirs pkg = true -> p_shadow_freeb pol dirs pkg c = true ->
+  p_rendered_seq false pol dirs pkg [c] = [p_spec_rendered pol dirs pkg c].
+Proof. intros H Hc Hf Hs. rewrite (p_spec_rendered_agree H). apply p_rendered_partial; assumption. Qed.
+
+(* ---- the chain ends at pydsdl.Any (property text) -- depends on the regenerated fact g_chain_ends_at_any ------------------------ *)
+Lemma chain_ends_at_any_fixed : g_chain_ends_at_any = true -> chain_end_ok = true.
+Proof. intros H. vm_compute in H. first [discriminate H | (vm_compute; reflexivity)]. Qed.
+
+(* as long as the walk continues past Any: a user ABC.j2 is chosen and rendered for EVERY type (F-LOOKUP-CHAIN-PAST-ANY) *)
+Definition abc_id : cls := match find (fun c => str_eqb (p_name c) [65; 66; 67]) p_ids with Some a => a | None => 0 end.
+Lemma chain_past_any_refuted : g_chain_ends_at_any = false ->
+  chain_end_ok = false /\
+  exists abc, p_name abc = [65; 66; 67] /\
+    p_rendered_seq false FIND_FIRST (Some [[p_exact_name abc]]) None [g_cls_StructureType] = [Rendered (OUserDir 0) (p_exact_name abc)] /\
+    p_spec_rendered FIND_FIRST (Some [[p_exact_name abc]]) None g_cls_StructureType = NoTemplate /\
+    isinst p_bases p_fuel abc g_cls_Any = false.
+Proof.
+  intros H. vm_compute in H. first [discriminate H | (split; [vm_compute; reflexivity | exists abc_id; vm_compute; repeat split; reflexivity])].
+Qed.
